@@ -55,7 +55,80 @@ def confirm(name, patch, demo):
         shutil.rmtree(wt, ignore_errors=True)
 
 
+RELATED = {
+    "C01": "C01,C02,C03,C08,C19", "C02": "C02,C01,C03,C08,C16", "C03": "C03,C02,C01,C08", "C04": "C04,C20,C12,C05",
+    "C05": "C05,C13,C12,C11,C08", "C06": "C06,C05,C07,C11", "C07": "C07,C06,C11", "C08": "C08,C09,C10,C05,C01",
+    "C09": "C09,C08,C10", "C10": "C10,C08,C20,C01", "C11": "C11,C06,C07,C05", "C12": "C12,C04,C05", "C13": "C13,C05",
+    "C14": "C14", "C15": "C15", "C16": "C16,C02", "C17": "C17,C08", "C18": "C18,C04", "C19": "C19,C02,C01", "C20": "C20,C04,C05,C10",
+}
+
+
+def collect():
+    items = []
+    for d in sorted(os.listdir("/tmp/mut")):
+        out = os.path.join("/tmp/mut", d, "out")
+        if not os.path.isdir(out):
+            continue
+        for suffix in ("", "2"):
+            p = os.path.join(out, "patch%s.diff" % suffix)
+            dm = os.path.join(out, "demo%s.cpp" % suffix)
+            mt = os.path.join(out, "meta%s.txt" % suffix)
+            if os.path.exists(p) and os.path.exists(dm) and os.path.getsize(p) > 0:
+                items.append((d + ("b" if suffix else "a"), d, p, dm, mt))
+    return items
+
+
+def stage1():
+    """confirm every delivered change (scratch worktrees only; /repo is not touched)"""
+    from concurrent.futures import ThreadPoolExecutor
+    os.makedirs(SCR, exist_ok=True)
+
+    def one(it):
+        name, prop, patch, demo, meta = it
+        dest = os.path.join(ROOT, "seeded", name)
+        os.makedirs(dest, exist_ok=True)
+        cj = os.path.join(dest, "confirm.json")
+        if os.path.exists(cj):
+            return name, json.load(open(cj))
+        conf = confirm(name, patch, demo)
+        shutil.copy(patch, os.path.join(dest, "patch.diff"))
+        shutil.copy(demo, os.path.join(dest, "demo.cpp"))
+        json.dump(conf, open(cj, "w"), indent=1)
+        print("confirm", name, conf["applies"], conf["unit_tests_pass"], conf["demo_pristine"], (conf["demo_changed"] or "")[:40], flush=True)
+        return name, conf
+    with ThreadPoolExecutor(max_workers=3) as ex:
+        list(ex.map(one, collect()))
+
+
+def stage2(only):
+    for name, prop, patch, demo, meta in collect():
+        if only and name not in only and prop not in only:
+            continue
+        dest = os.path.join(ROOT, "seeded", name)
+        cj = os.path.join(dest, "confirm.json")
+        if not os.path.exists(cj):
+            continue
+        conf = json.load(open(cj))
+        ok = conf["applies"] and conf["unit_tests_pass"] and conf["demo_pristine"] == "PASS" and (conf["demo_changed"] or "").startswith("FAIL")
+        result = {"name": name, "breaks_property": prop, "confirmed": ok, "confirmation": conf}
+        t0 = time.time()
+        if ok:
+            rc, o = sh([os.path.join(ROOT, "tools", "try_seeded.py"), patch, RELATED[prop]], timeout=7200)
+            result["checks_output"] = [l for l in o.splitlines() if l.startswith("C") and "rc=" in l]
+            caught = [l for l in o.splitlines() if l.startswith("CAUGHT-BY")]
+            result["caught_by"] = caught[0].split(":", 1)[1].strip() if caught else "?"
+        result["what_it_needs"] = open(meta).read()[:3000] if os.path.exists(meta) else ""
+        result["ran"] = ["scratch worktree: git apply patch.diff; unit-test suite built and run; demo.cpp built and run on the pristine and on the changed tree",
+                         "tools/try_seeded.py patch.diff %s (git -C /repo apply; ./check ...; git -C /repo checkout -- .)" % RELATED[prop]]
+        json.dump(result, open(os.path.join(dest, "meta.json"), "w"), indent=1)
+        print("%s confirmed=%s caught_by=%s (%.0fs)" % (name, ok, result.get("caught_by"), time.time() - t0), flush=True)
+
+
 def main():
+    if sys.argv[1:2] == ["stage1"]:
+        return stage1()
+    if sys.argv[1:2] == ["stage2"]:
+        return stage2(sys.argv[2:])
     os.makedirs(SCR, exist_ok=True)
     only = sys.argv[1:]
     items = []
